@@ -40,8 +40,8 @@ func Shrink(trace []uint64, budget int, test func([]uint64) (bool, []uint64)) ([
 				}
 			}
 		}
-		// pass 2: zero spans
-		for size := 8; size >= 1; size /= 2 {
+		// pass 2: zero spans (large spans first: "the rest of the run is trivial")
+		for size := len(cur) / 2; size >= 1; size /= 2 {
 			for i := 0; i+size <= len(cur) && attempts < budget; i += size {
 				allZero := true
 				for _, v := range cur[i : i+size] {
